@@ -83,7 +83,7 @@ def run(F, R):
     R.count("reachable_bodies", len(reachable))
     R.floor("C14-R1", "bodies reachable from the entry points", len(reachable), 300)
     allow = json.load(open(os.path.join(facts.VERIF, "tables", "panic_allowlist.json")))["entries"]
-    allow_idx = {(e["body"], e["site"]): e for e in allow}
+    allow_idx = {(e["body"], e["site"]): e for e in allow if e.get("crate", "omaha_client") == "omaha_client"}
 
     # environment for interval proofs: the attempt counter of the check loop
     comps = smod.sccs(S, S.live)
@@ -167,7 +167,7 @@ def run(F, R):
     R.count("proved", nproved)
     R.count("allowlisted", nallow)
     used = set((s_["bv"].name, "%s#%d" % (s_["desc"], s_["ord"])) for s_ in sites)
-    stale = [k for k in allow_idx if k not in used and not k[0].startswith("mock_omaha_server")]
+    stale = [k for k in allow_idx if k not in used]
     R.check("C14-R1", "allowlist-not-stale", not stale, "every allowlist entry names an existing site", "allowlist entries without a site: %s" % stale)
 
     # ---------------------------------------------------------------- R2 storage-result discipline
